@@ -279,6 +279,17 @@ inline void shared_section(const Cell& c, int hold)
         gsim::fail("unstable", "value under a shared access changed from %ld to %ld", v, v2);
 }
 
+/// the target of a move of a usable handle is a usable handle to the same object (with
+/// locking enabled and with locking disabled)
+template<class H>
+void moved_handle_check(const H& h, const void* obj, const char* how)
+{
+    if (!h)
+        gsim::fail("moved_handle_null", "the target of a %s from a non-null handle tests false", how);
+    if ((const void*)&*h != obj)
+        gsim::fail("moved_handle_null", "the target of a %s refers to another object", how);
+}
+
 /// life cycle of a non-null handle H obtained with `before` held-set.
 /// `aux` returns an exclusive handle of a second wrapper of the same type
 /// (always acquired after the wrapper under test, so no lock-order cycle).
@@ -306,13 +317,18 @@ void excl_lifecycle(H& h, const HeldSnap& before, gsim::Op op, Aux&& aux)
         h.unlock();
         check_released(before, "unlock() of a handle that was overwritten by move-assignment");
     } else if (life == 2) {
+        const void* obj = &*h;
         H h2(std::move(h));
+        moved_handle_check(h2, obj, "move construction");
         excl_section(*h2, op.a);
         // h2 destroyed first, then (moved-from) h
     } else if (life == 3) {
         excl_section(*h, op.a);
+        const void* obj = &*h;
         H h2(std::move(h));
+        moved_handle_check(h2, obj, "move construction");
         h = std::move(h2);
+        moved_handle_check(h, obj, "move assignment");
         if (G->oracle_handle) {
             gsim::Oracle o;
             if (gsim::held_exclusive() != before.ex + (G->enabled ? 1 : 0))
@@ -355,12 +371,17 @@ void shared_lifecycle(H& h, const HeldSnap& before, gsim::Op op, Aux&& aux)
         h.unlock();
         check_released(before, "unlock() of a shared handle overwritten by move-assignment");
     } else if (life == 2) {
+        const void* obj = &*h;
         H h2(std::move(h));
+        moved_handle_check(h2, obj, "move construction");
         shared_section(*h2, op.a);
     } else if (life == 3) {
         shared_section(*h, op.a);
+        const void* obj = &*h;
         H h2(std::move(h));
+        moved_handle_check(h2, obj, "move construction");
         h = std::move(h2);
+        moved_handle_check(h, obj, "move assignment");
         h.unlock();
         if (G->oracle_handle && h)
             gsim::fail("unlock_not_null", "shared handle still tests true after unlock()");
@@ -833,14 +854,35 @@ struct Exec {
                     // C02 reader sharing: no writer exists in this program, so
                     // no shared acquisition may wait or fail
                     using namespace std::chrono_literals;
+                    if constexpr (has_load<W>::value) {
+                        if (op.b % 7 >= 5) {
+                            // load() is a reader too: called while another reader holds its
+                            // handle it must neither wait nor fail
+                            int holders = 0;
+                            for (int u = 0; u < gsim::prog_nthreads(); u++)
+                                for (int k = 0; k < gsim::prog_len(u); k++)
+                                    if (gsim::prog_op(u, k).code == OP_RDV_SHARED &&
+                                        gsim::prog_op(u, k).b % 7 < 5)
+                                        holders++;
+                            if (holders) gsim::ctr_wait_ge(2, 1);
+                            gsim::forbid_blocking(true, "readers_serialised");
+                            Cell c = cw.load();
+                            gsim::forbid_blocking(false, nullptr);
+                            (void)c.read();
+                            if (holders) gsim::probe("rdv.load_while_reader_holds");
+                            gsim::ctr_add(1, 1);
+                            break;
+                        }
+                    }
                     gsim::forbid_blocking(true, "readers_serialised");
-                    int form = op.b % 5;
+                    int form = (op.b % 7) % 5;
                     if constexpr (!shared_timed) form = form % 3 == 2 ? 0 : form % 3;
                     if constexpr (has_read_fn<W>::value) {
                         if (form == 4) {
                             cw.read([&](const Cell& c) {
                                 gsim::forbid_blocking(false, nullptr);
                                 (void)c.read();
+                                gsim::ctr_add(2, 1);
                                 gsim::ctr_add(1, 1);
                                 gsim::ctr_wait_ge(1, gsim::prog_nthreads());
                             });
@@ -863,6 +905,7 @@ struct Exec {
                         gsim::fail("readers_serialised", "a shared acquisition (form %d) failed "
                                    "although only readers exist", form);
                     (void)h->read();
+                    gsim::ctr_add(2, 1);
                     gsim::ctr_add(1, 1);
                     gsim::ctr_wait_ge(1, gsim::prog_nthreads());
                 }
@@ -887,7 +930,7 @@ void generate(const char* mode)
     if (!strcmp(mode, "rdv")) {
         int n = 2 + gsim::gen_int(2);
         gsim::prog_reset(n);
-        for (int t = 0; t < n; t++) gsim::prog_add(t, {OP_RDV_SHARED, 0, gsim::gen_int(5), 0});
+        for (int t = 0; t < n; t++) gsim::prog_add(t, {OP_RDV_SHARED, 0, gsim::gen_int(7), 0});
         return;
     }
     if (!strcmp(mode, "reg")) {
